@@ -110,6 +110,14 @@ def run(chk, pid, tier, seed, workers, cases, strict):
     corpus = os.path.join(ubdir, "corpus.jsonl")
     r = subprocess.run([chk.BIN, "ubcorpus", corpus, str(seed), str(n0), str(n1), str(n2)], env=chk.ENV, cwd=chk.VERIF,
                        stdout=subprocess.PIPE, stderr=subprocess.PIPE, text=True)
+    native_crash = None
+    if r.returncode < 0:
+        # the engine crashed the corpus generator natively (a signal: memory error in "safe" API calls is itself a symptom
+        # of undefined behaviour). Generate the corpus without native runs and let Miri name the cause.
+        native_crash = "the native run of generated histories died with signal %d" % (-r.returncode)
+        chk.log(native_crash + "; regenerating the corpus without native runs")
+        r = subprocess.run([chk.BIN, "ubcorpus", corpus, str(seed), str(n0), str(n1), str(n2), "--no-native"], env=chk.ENV, cwd=chk.VERIF,
+                           stdout=subprocess.PIPE, stderr=subprocess.PIPE, text=True)
     if r.returncode != 0:
         chk.log(r.stderr[-2000:])
         chk.log("INCONCLUSIVE: could not generate the corpus")
@@ -213,6 +221,9 @@ def run(chk, pid, tier, seed, workers, cases, strict):
         chk.log(v["message"])
         print("VIOLATION property=%s replay=%s" % (pid, path))
         return 1
+    if native_crash:
+        merged["notes"].append(native_crash)
+        inconclusive.append(native_crash + ", but Miri reported nothing on the same histories")
     chk.write_evidence(pid, tier, seed, merged, wall, 0)
     if inconclusive:
         chk.log("\n".join(inconclusive))
